@@ -4,9 +4,7 @@ EXTENDS I_RouteMgr, RouteUniverse
 \* address, a local block and a local workload / bare /32
 MsgsMid == MsgsCover \cup {
     Remote("10.0.2.0/26", B2, "ipip", "n2", Ip2, FALSE),
-    Remote("10.0.2.0/26", B2, "ipip", "n2", Ip2, TRUE),
-    M("10.0.3.5/32", R(A2, TRUE, FALSE, FALSE, "vxlan", "n2", Ip2, FALSE, FALSE, TRUE)),
-    M("10.0.3.9/32", R(T3, FALSE, FALSE, TRUE, "vxlan", "n2", Ip2, FALSE, FALSE, TRUE)) }
+    M("10.0.3.5/32", R(A2, TRUE, FALSE, FALSE, "vxlan", "n2", Ip2, FALSE, FALSE, TRUE)) }
 MsgsTiny == {
     Remote("10.0.2.0/26", B2, "vxlan", "n2", Ip2, FALSE),
     Remote("10.0.2.0/26", B2, "vxlan", "n2", Ip2, TRUE),
@@ -14,7 +12,7 @@ MsgsTiny == {
     M("10.0.1.0/26", R(LB, FALSE, TRUE, FALSE, "vxlan", "n1", "172.0.0.2", TRUE, FALSE, FALSE)),
     M("10.0.1.7/32", R(W1, FALSE, TRUE, FALSE, "vxlan", "n1", "172.0.0.2", TRUE, TRUE, FALSE)) }
 VtepTiny == [n1 |-> {"10.0.1.1"}, n2 |-> {"10.0.2.1"}, n3 |-> {}]
-HostMid == [n1 |-> {"172.0.0.2"}, n2 |-> {Ip2, ""}, n3 |-> {}]
+HostMid == [n1 |-> {"172.0.0.2"}, n2 |-> {Ip2}, n3 |-> {}]
 DstsOf(ms) == { m.dst : m \in ms }
 DstsCover == DstsOf(MsgsCover)
 DstsMid == DstsOf(MsgsMid)
